@@ -20,7 +20,7 @@ EXPLANATION = (
     'cancels the RSocket subscription unless the stream already terminated; terminal signals of the stream mark it '
     'done; (e) the channel handler adapter wires the observable to a publisher and the observer to a subscriber with '
     'the channel\'s limit. Not decided: element-for-element equivalence with the core API.')
-EXPLANATION_ADDED = ("(g) the observable-to-publisher feeders turn every notification into its signal once (OnNext/OnError/OnCompleted, generator values, end and failure), credit published on the feedback subject reaches the feeder's queue and its completion cancels the feeder, the publisher wrapper subscribes the subscriber through its adapter and forwards request/cancel; the request is sent from inside the task whose cancellation sends CANCEL; batch counting of the Rx subscribers (C06.a).")
+EXPLANATION_ADDED = ("(g) the observable-to-publisher feeders turn every notification into its signal once (OnNext/OnError/OnCompleted, generator values, end and failure), credit published on the feedback subject reaches the feeder's queue and its completion cancels the feeder, the publisher wrapper subscribes the subscriber through its adapter and forwards request/cancel; the request is sent from inside the task whose cancellation sends CANCEL; batch counting of the Rx subscribers (C06.a). No call of a library coroutine function is dropped as a statement or returned un-awaited from another coroutine function (C15.d): the call-backs the library awaits - keepalive timeout included - reach the application through the handler adapters. (i) credit enters the feedback Subject of an observable-backed publisher from request(n) only, carrying the requester's n.")
 EXPLANATION = EXPLANATION.replace(' Not decided', ' ' + EXPLANATION_ADDED + ' Not decided', 1) \
     if ' Not decided' in EXPLANATION else EXPLANATION + ' ' + EXPLANATION_ADDED
 ASSUMPTIONS = COMMON_ASSUMPTIONS
@@ -672,4 +672,64 @@ def rule_g(ctx):
                                                            'keeps producing')
 
 
-RULES = [('C20.a', rule_a), ('C20.b', c06a), ('C20.c', c06b), ('C20.d', rule_d), ('C20.e', rule_e), ('C20.f', rule_f), ('C20.g', rule_g), ('C20.e+C20.g', rule_h)]
+def rule_i(ctx):
+    """Credit reaches an observable-backed publisher from one place only: the Subject that carries REQUEST_N values to
+    the feeder gets on_next(n) from the subscription's request(n) with the requester's n.  Any other producer of credit
+    (a 'top-up' for terminal events, a priming value) lets elements past what the peer granted."""
+    rep = ctx.report
+    for pkg in PKGS:
+        m = ctx.repo.module('rsocket.%s.back_pressure_publisher' % pkg)
+        sites = []
+        for fn in ctx.repo.all_functions():
+            if fn.module is not m:
+                continue
+            # names that denote a credit channel inside this function: parameters annotated Subject (also of the
+            # enclosing functions) and self attributes annotated / assigned Subject
+            chan = set()
+            g = fn
+            while g is not None:
+                a = g.node.args
+                for x in a.posonlyargs + a.args + a.kwonlyargs:
+                    if x.annotation is not None and 'Subject' in ast.unparse(x.annotation):
+                        chan.add(x.arg)
+                g = g.parent
+            for n in walk_local(fn.node):
+                if isinstance(n, ast.Call) and isinstance(n.func, ast.Attribute) and n.func.attr == 'on_next':
+                    r = n.func.value
+                    is_chan = isinstance(r, ast.Name) and r.id in chan
+                    if isinstance(r, ast.Attribute) and isinstance(r.value, ast.Name) and r.value.id == 'self' and \
+                            fn.cls is not None:
+                        for k in fn.cls.mro():
+                            for f2 in k.methods.values():
+                                for st in walk_local(f2.node):
+                                    if isinstance(st, ast.AnnAssign) and ast.unparse(st.target) == ast.unparse(r) and \
+                                            'Subject' in ast.unparse(st.annotation):
+                                        is_chan = True
+                                    if isinstance(st, ast.Assign) and ast.unparse(st.targets[0]) == ast.unparse(r) and \
+                                            'Subject(' in ast.unparse(st.value):
+                                        is_chan = True
+                    if is_chan:
+                        sites.append((fn, n))
+        ok, detail = True, ''
+        if not sites:
+            raise AnalysisError('C20.i: %s: nothing puts credit into the feedback subject' % pkg)
+        for fn, n in sites:
+            params = fn.params()[1:] if fn.cls is not None else fn.params()
+            good = fn.node.name == 'request' and len(n.args) == 1 and isinstance(n.args[0], ast.Name) and \
+                params and n.args[0].id == params[0]
+            if not good:
+                ok, detail = False, ('%s (line %d) puts %s into the credit channel: credit the peer did not grant' % (
+                    fn.short, n.lineno, ast.unparse(n.args[0]) if n.args else 'a value'))
+        rep.add('C20.i', '%s back_pressure_publisher / credit comes from request(n) only' % pkg,
+                (sites[0][0].file, sites[0][1].lineno), ok,
+                detail or 'the only on_next on a credit Subject is request(n) forwarding its n (%d site)' % len(sites))
+
+
+def rule_coroutines(ctx):
+    """Every coroutine the library creates is run: the keepalive-timeout (and every other) call-back reaches the
+    application through the handler adapters only if the adapter awaits the delegate (rules/binding.py)."""
+    from .binding import rule_coroutines_run
+    rule_coroutines_run(ctx, 'C15.d', ['rsocket', 'reactivestreams'], 'library coroutine calls')
+
+
+RULES = [('C20.a', rule_a), ('C20.b', c06a), ('C20.c', c06b), ('C20.d', rule_d), ('C20.e', rule_e), ('C20.f', rule_f), ('C20.g', rule_g), ('C20.e+C20.g', rule_h), ('C15.d', rule_coroutines), ('C20.i', rule_i)]
